@@ -180,12 +180,20 @@ def analyse(c, chk, rule_plain, rule_restore, funcs=None, skip_keys=()):
         bad = 0
         rest = 0
         for p in ex.explore(fn):
-            if p.end != 'ret' or not is_failure(fn, p.retval):
+            handed_on = None
+            if p.end == 'ret' and p.retval is not None and p.retval[0] == 'call' and c.func(p.retval[1]) is not None and not fn.retty.endswith('*'):
+                # the verdict of a callee is handed on: when that callee refuses, this is a refusing path too
+                handed_on = next((e for e in p.events if e.kind == 'call' and e.res == p.retval), None)
+            if p.end != 'ret' or not (is_failure(fn, p.retval) or handed_on is not None):
                 continue
             if c07.is_alloc_failure_path(p):
                 continue
             nfail += 1
             effs = path_effects(c, fn, p, verified)
+            if handed_on is not None:
+                # only what was done before the deciding call counts (that call itself is judged on its own)
+                hi = p.events.index(handed_on)
+                effs = [x for x in effs if p.events.index(x[0]) < hi]
             if not effs:
                 continue
             ok, why = restored(p, effs)
